@@ -82,7 +82,12 @@ TrEnd == /\ verdict = "run" /\ l = Len(Tr) + 1 /\ LoadOver
          /\ PrintT("@@J " \o ToJson([k |-> "end", accepted |-> naccepted', rejected |-> nrejected, lines |-> Len(Tr)]))
          /\ UNCHANGED <<l, cur, nrejected>> /\ UNCHANGED vars
 
-Follow == TrReset \/ TrEvent \/ TrSilent \/ TrEnd
+\* once the specification is in its undefined state (an out-of-bounds read has happened) the
+\* real loader may do anything: whatever else it logs for this load is accepted
+TrChaos == /\ verdict = "run" /\ stage = "undefined" /\ l <= Len(Tr) /\ ~IsReset(l) /\ cur # ""
+           /\ l' = l + 1 /\ UNCHANGED <<cur, naccepted, nrejected, verdict>> /\ UNCHANGED vars
+
+Follow == TrReset \/ TrEvent \/ TrSilent \/ TrChaos \/ TrEnd
 
 \* what the specification could do from here (for the report)
 CouldDo == {a \in {"ReadHeader", "ValidateHeader", "CheckCrc", "CheckDir", "Alloc", "Section", "Done", "none"} :
